@@ -370,7 +370,7 @@ func (mc *modelCheck) run(c *vk.Ctx) {
 		a := app.Generate(r, mc.Profile(r))
 		cfg := genConfig(r, a, "ses1")
 		if a.Trans["nor"] != nil && r.Chance(1, 3) {
-			cfg.Language = vk.Pick(r, []string{"nor", "swa", "eng", "fra", "no"})
+			cfg.Language = vk.Pick(r, []string{"nor", "swa", "eng", "fra", "no", "fre", "sw"})
 		}
 		if mc.Config != nil {
 			mc.Config(r, a, &cfg)
